@@ -92,7 +92,9 @@ type aWorld struct {
 	unpubOp *aOp
 	// jsonMove: this run rearranges list members with ietf-json-patch "move" (violations found in such runs carry their
 	// own fingerprints)
-	jsonMove  bool
+	jsonMove bool
+	// t0: ledger time at the start of the run
+	t0        uint64
 	deactSnap string
 	deactAt   int
 
@@ -162,6 +164,13 @@ func runWorldA(rc *RunCtx, prop string) *RunResult {
 	}
 
 	w.now = ledgerBase + uint64(T.Draw(50, "cfg.t0"))
+
+	// a ledger whose "time" is a block height starts at 0 (a cut at the epoch itself then shows the first operation)
+	if prop == "C06" && T.Draw(8, "cfg.t0.zero") == 0 {
+		w.now = 0
+	}
+
+	w.t0 = w.now
 
 	// protocol versions: one or two; the second starts somewhere inside the run
 	maxDelta := uint(3000 + T.Draw(2000, "cfg.maxdelta"))
@@ -267,7 +276,7 @@ func runWorldA(rc *RunCtx, prop string) *RunResult {
 	}
 
 	res := &RunResult{
-		Viol: k.Viol, SimSeconds: float64(w.now - ledgerBase), Nontrivial: w.nontrivial, StateHash: w.stateSeq,
+		Viol: k.Viol, SimSeconds: float64(w.now - w.t0), Nontrivial: w.nontrivial, StateHash: w.stateSeq,
 		Real: []string{"processor.OperationProcessor", "operationapplier", "operationparser", "doccomposer", "hashing", "commitment", "internal/jws (via applier)", "canonicalizer", "client request builders", "ecsigner", "edsigner", "pubkey"},
 		Stub: []string{"operation store", "unpublished operation store", "ledger (time/number/canonical reference)", "protocol.Client"},
 	}
@@ -1025,6 +1034,14 @@ func (w *aWorld) anchorHonest(st *refmodel.State, party string) {
 			p.kind = "baddelta"
 		} else if failing {
 			p.kind = "failing-patch"
+		}
+
+		// a recover anchored without any delta member is still the controller's recover: empty document, no update
+		// commitment, the recovery commitment moves on (its commitments are in the signed data)
+		if typ == operation.TypeRecover && cls == refmodel.DeltaMismatch && T.Draw(2, "recover.nodelta") == 0 {
+			p.noDelta = true
+			p.kind = "recover-without-delta"
+			w.k.Count("probe:recover-without-delta")
 		}
 	}
 
@@ -2216,7 +2233,11 @@ func (w *aWorld) oracleTimeTravel() {
 	// cut points by time
 	times := map[uint64]bool{}
 	for _, o := range pub {
-		times[o.M.Time-1], times[o.M.Time], times[o.M.Time+1] = true, true, true
+		times[o.M.Time], times[o.M.Time+1] = true, true
+
+		if o.M.Time > 0 {
+			times[o.M.Time-1] = true
+		}
 	}
 
 	if w.unpubOp != nil {
@@ -2377,6 +2398,14 @@ func (w *aWorld) oracleTimeTravel() {
 			"versionTime=1969-12-31T23:59:59Z%",
 		}
 		raw := raws[w.k.T.Draw(len(raws), "tt.rawquery.which")]
+
+		// ... possibly next to a well-formed parameter that has nothing to do with versions
+		switch w.k.T.Draw(3, "tt.rawquery.other") {
+		case 1:
+			raw = "service=files&" + raw
+		case 2:
+			raw += "&relativeRef=%2Fa"
+		}
 		ro, code := w.viaRESTRaw(raw)
 		w.k.Count("probe:version-parameter-in-unescaped-query")
 
